@@ -26,9 +26,15 @@ Gen_MenuDrawSmall == <<1, 2, 5, 14>>
 Gen_TickDraw == <<0, 0, 0, 0, 1, 1, 2>>
 Gen_TickDrawSmall == <<0, 1>>
 Gen_GetDrawSmall == <<"ok">>
+Gen_GetDrawClasses == <<"ok", "err", "err_deadline", "err_canceled", "err_net">>
+Gen_SetDrawClasses == <<"ok", "err", "err_deadline", "err_canceled", "err_net">>
+Gen_MenuDrawClasses == <<1, 14>>
+Gen_HeaderDrawClasses == <<1>>
+Gen_OutcomeDrawClasses == <<"clean">>
+Gen_TickDrawClasses == <<0>>
 Gen_SetDrawSmall == <<"ok">>
-Gen_GetDraw == <<"ok", "ok", "ok", "ok", "ok", "ok", "ok", "err", "empty">>
-Gen_SetDraw == <<"ok", "ok", "ok", "ok", "ok", "err", "part">>
+Gen_GetDraw == <<"ok", "ok", "ok", "ok", "ok", "ok", "ok", "ok", "ok", "ok", "ok", "ok", "err", "err_deadline", "err_canceled", "err_net", "empty">>
+Gen_SetDraw == <<"ok", "ok", "ok", "ok", "ok", "ok", "ok", "ok", "ok", "ok", "err", "err_deadline", "err_canceled", "err_net", "part">>
 Gen_HeaderDrawSmall == <<1, 5, 9>>
 Gen_OutcomeDrawSmall == <<"clean", "errs">>
 
@@ -40,7 +46,7 @@ ASSUME PrintT(ToJson([tables |-> Tables]))
 Rec(a, i, j, s) == [a |-> a, i |-> i, j |-> j, s |-> s]
 \* position of entity e in the batch (ascending entity number = order of the representations)
 PosIn(batch, e) == Cardinality({x \in batch : x <= e})
-AppliedOf(sf) == CASE sf = "ok" -> DOMAIN items [] sf = "err" -> {} [] OTHER -> LowerHalf(DOMAIN items)
+AppliedOf(sf) == CASE sf = "ok" -> DOMAIN items [] sf \in ErrClasses -> {} [] OTHER -> LowerHalf(DOMAIN items)
 
 GenInit == Init /\ hist = <<>>
 GenNext ==
